@@ -32,7 +32,7 @@ NVals == {NR(n) : n \in {m \in 1..st.n : st.def[m].k \in {"var", "const", "map",
 Nodes == 1..st.n
 Quiet == Ok(st) /\ st.status = "idle"
 \* user-visible nodes (not lhs_change, not created inside binds)
-Visible == {n \in Nodes : st.def[n].k # "lhs" /\ st.scope[n] = 0}
+Visible == {n \in Nodes : st.def[n].k # "lhs" /\ st.scope[n] = 0 /\ n \in st.handles}
 IntNodes == {n \in Visible : st.def[n].k \in {"var", "const", "map", "map2", "fold", "main", "mwo", "expert"}
                              /\ ~(st.def[n].k = "var" /\ Tag(st.def[n].init) = "n")
                              /\ ~(st.def[n].k = "map" /\ "ctl" \in DOMAIN st.def[n])
@@ -44,7 +44,7 @@ PairNodes == Visible \ (IntNodes \cup {n \in Visible : st.def[n].k = "mapref" /\
 NumVars == Cardinality({n \in Nodes : st.def[n].k = "var"})
 Creating == st.n < MaxNodes /\ (Late \/ st.no = 0)
 
-Do(a, s) == /\ st' = ApiClearLogs(s)
+Do(a, s) == /\ st' = Settle(HoldFor(a, ApiClearLogs(s)))
             /\ hist' = Append(hist, a)
             /\ acts' = acts + 1
             /\ UNCHANGED coneB
@@ -78,6 +78,10 @@ Create ==
         /\ \E sel \in {m \in IntNodes : st.def[m].k = "var"}, x \in IntNodes, y \in IntNodes :
              sel # x /\ sel # y /\ K >= 3 /\
              Do([a |-> "xsum", sel |-> sel, ins |-> <<x, y>>], ApiXSum(st, sel, <<x, y>>))
+     \/ /\ "memo" \in Ctors /\ Len(st.memos) < 1
+        /\ \/ \E x \in IntNodes, f \in Fs2 \cap {"add", "max"} :
+                Do([a |-> "memo_new", f |-> f, over |-> x], ApiMemoNew(st, f, x))
+           \/ Do([a |-> "memo_new", f |-> "const", over |-> 0], ApiMemoNew(st, "const", 0))
      \/ /\ "const" \in Ctors
         /\ \E v \in Vals : Do([a |-> "const", v |-> v], ApiConst(st, v))
      \/ /\ "map" \in Ctors
@@ -117,6 +121,12 @@ Create ==
                 /\ \E x \in IntNodes, y \in IntNodes : x # y /\ K = 2 /\
                      LET rc == [r |-> "pick", alts |-> <<x, y>>] IN
                      Do([a |-> "bind", in |-> l, recipe |-> rc], ApiBind(st, l, rc))
+             \/ /\ "foreign" \in RecipeKinds
+                /\ LET rc == [r |-> "foreign"] IN
+                   Do([a |-> "bind", in |-> l, recipe |-> rc], ApiBind(st, l, rc))
+             \/ /\ "memo" \in RecipeKinds /\ Len(st.memos) >= 1
+                /\ LET rc == [r |-> "memo", m |-> 1] IN
+                   Do([a |-> "bind", in |-> l, recipe |-> rc], ApiBind(st, l, rc))
              \/ /\ "const" \in RecipeKinds
                 /\ LET rc == [r |-> "const"] IN
                    Do([a |-> "bind", in |-> l, recipe |-> rc], ApiBind(st, l, rc))
@@ -138,6 +148,10 @@ Create ==
                      LET rc == [r |-> "alt", alts |-> <<[r |-> "pick", alts |-> <<x, x>>],
                                                         [r |-> "chain", f |-> "add", over |-> x, len |-> 3]>>] IN
                      Do([a |-> "bind", in |-> l, recipe |-> rc], ApiBind(st, l, rc))
+     \/ /\ "refbind" \in Ctors /\ st.n + 2 <= MaxNodes
+        /\ \E l \in {m \in Nodes : st.def[m].k = "var" /\ Tag(st.def[m].init) = "n" /\ m \in st.handles} :
+             LET rc == [r |-> "ref"] IN
+             Do([a |-> "bind", in |-> l, recipe |-> rc], ApiBind(st, l, rc))
      \/ /\ "cutoff" \in Ctors
         /\ \E n \in IntNodes, c \in Cutoffs :
              st.cutoff[n].c = "eq" /\ st.recAt[n] = -1 /\
@@ -148,10 +162,10 @@ Create ==
 Budget == acts < MaxActs
 Write ==
   /\ Quiet /\ Budget
-  /\ \E v \in {n \in Nodes : st.def[n].k = "var"}, op \in Ops :
+  /\ \E v \in {n \in Nodes : st.def[n].k = "var" /\ n \in st.vhandles}, op \in Ops :
        IF op \in {"set", "replace"}
        THEN \E x \in (IF Tag(st.def[v].init) = "p" THEN PVals
-                       ELSE IF Tag(st.def[v].init) = "n" THEN {y \in NVals : y[2] < v} ELSE Vals) :
+                       ELSE IF Tag(st.def[v].init) = "n" THEN {y \in NVals : y[2] < v \/ "cyclic" \in Ctors} ELSE Vals) :
               x # st.cell[v] /\
               Do([a |-> "write", n |-> v, op |-> op, x |-> x], VarWrite(st, v, op, x))
        ELSE Do([a |-> "write", n |-> v, op |-> op, x |-> NoVal], VarWrite(st, v, op, NoVal))
@@ -185,6 +199,16 @@ UnsubscribeA ==
        \E t \in 1..(st.onext[to] - 1) :
           \/ Do([a |-> "unsubscribe", o |-> o, to |-> to, t |-> t], Unsubscribe(st, o, to, t))
           \/ (o = to /\ Do([a |-> "state_unsubscribe", o |-> o, to |-> to, t |-> t], StateUnsubscribe(st, to, t)))
+
+SetMaxH ==
+  /\ Quiet /\ Budget /\ "setmaxh" \in Ctors
+  /\ \E h \in 1..(MaxH + 1) : h # st.ahhMax /\
+       Do([a |-> "set_max_height", h |-> h], ApiSetMaxHeight(st, h))
+
+DropHandle ==
+  /\ Quiet /\ Budget /\ "drop" \in Ctors
+  /\ \/ \E n \in st.handles \ st.vhandles : Do([a |-> "drop", n |-> n], ApiDropHandle(st, n))
+     \/ \E v \in st.vhandles : Do([a |-> "drop_var", n |-> v], ApiDropVar(st, v))
 
 Begin ==
   /\ Quiet /\ st.round < MaxRounds
@@ -227,18 +251,22 @@ Expect(s) ==
                         LET m == CHOOSE x \in t : \A y \in t : (x.o < y.o \/ (x.o = y.o /\ x.t <= y.t))
                         IN <<m>> \o Go(t \ {m})
            IN Go(d),
+   released |-> [n \in 1..s.n |-> n \in Released(StabiliseFinish(s))],
+   memo |-> s.memoLog,
    inreads |-> s.readLog,
    rets |-> s.retLog,
    stable |-> IsStable(s),
    cells |-> [n \in 1..s.n |-> s.cell[n]]]
 Finish ==
   /\ Ok(st) /\ ~st.poisoned /\ st.status = "handlers" /\ st.runq = <<>>
-  /\ st' = StabiliseFinish(st)
+  /\ st' = Settle(StabiliseFinish(st))
   /\ hist' = Append(hist, Expect(st))
   /\ UNCHANGED <<coneB, acts>>
 
 \* a panic escaped the last public call and is caught by the caller
 PanicClass(s) == CASE s.panic = "panic:user" -> "user" [] s.panic = "panic:status" -> "status"
+                   [] s.panic = "panic:max_height_seen" -> "max_height_seen"
+                   [] s.panic = "panic:assert_foreign" -> "foreign"
                    [] s.panic = "panic:height" -> "height" [] s.panic = "panic:cyclic" -> "cyclic"
                    [] OTHER -> "other"
 RecoverA ==
@@ -256,14 +284,19 @@ BeginPoisoned ==
   /\ UNCHANGED coneB
 
 Init == /\ st = InitState(MaxH) /\ hist = <<>> /\ coneB = {} /\ acts = 0
-Next == Create \/ Write \/ SubscribeA \/ UnsubscribeA \/ Observe \/ ObserveLeaked \/ DropObs \/ Disallow
+Next == Create \/ SetMaxH \/ DropHandle \/ Write \/ SubscribeA \/ UnsubscribeA \/ Observe \/ ObserveLeaked \/ DropObs \/ Disallow
         \/ Begin \/ Step \/ EndA \/ HandlersStep \/ Finish \/ RecoverA \/ BeginPoisoned
 Spec == Init /\ [][Next]_vars
-View == <<st>>
+\* counters and the round number never influence behaviour: keep them out of the fingerprint
+View == <<[st EXCEPT !.stats = 0, !.round = 0]>>
 
 ---------------------------------------------------------------------------
 (* Invariants (property predicates of IncrRef on the engine state)          *)
-NoPanic == Ok(st) \/ st.panic = "panic:user" \/ (st.poisoned /\ st.panic = "panic:status")
+NoPanic == Ok(st) \/ st.panic = "panic:user"
+           \/ ("limits" \in Ctors /\ st.panic \in {"panic:height", "panic:max_height_seen"})
+           \/ ("cyclic" \in Ctors /\ st.panic = "panic:cyclic")
+           \/ ("foreign" \in RecipeKinds /\ st.panic = "panic:assert_foreign")
+           \/ (st.poisoned /\ st.panic = "panic:height") \/ (st.poisoned /\ st.panic = "panic:status")
            \/ (("stabilise" \in Effs) /\ st.panic = "panic:status")
 InvObsCorrect == ObsCorrect(st)
 InvInvalidity == Invalidity(st)
@@ -273,6 +306,7 @@ InvNoStaleRun == NoStaleRun(st)
 InvOnlyNeeded == OnlyNeeded(st, coneB)
 InvAudit == Audit(st)
 InvExactUpdates == ExactUpdates(st)
+InvHeightExact == HeightExact(st)
 
 \* behaviour export: one REPLAY line per maximal behaviour
 Done == /\ Ok(st) /\ Len(hist) > 0
